@@ -2,6 +2,7 @@ package c18
 
 import (
 	"fmt"
+	"math"
 	"strings"
 	"sync"
 
@@ -569,6 +570,250 @@ func genHugeLimit(r *core.Rand) core.Case {
 	return core.Case{Lines: lines, Tag: "magnitude"}
 }
 
+/* ---------- sentinel: arguments at the edge of int ----------
+
+Go `int` is 64 bits.  The code under test never ADDS weights (it compares `i >= w` and forms
+`i-w` only when `i >= w`), so it is exact for arbitrarily large weights; a change that sums
+weights (a "remaining weight" bound, `i+w`, a total-weight shortcut) wraps past 2^63 as soon as
+the item list carries weights like math.MaxInt ("cannot be packed") or 1<<62.  Values ARE summed
+(`dp[i-w].score + value`, `currentValue + value`): they stay under the guard "sum of all values
+< 2^63" (c18_int64_guard), right up to it. */
+
+// sentinelWeights: weights no limit the table can be allocated for will ever reach; pairs and
+// triples of them wrap an int sum to something small or negative (MaxInt+MaxInt = -2,
+// 4·(1<<62) = 0, (1<<62)+(1<<62) = MinInt, (MaxInt/2+1)·2 = MinInt, 3·(MaxInt/3+1) = 2 …).
+var sentinelWeights = []int{
+	math.MaxInt, math.MaxInt, math.MaxInt - 1, math.MaxInt - 2, 1 << 62, 1 << 62, 1<<62 + 1, 1<<62 - 1,
+	math.MaxInt/2 + 1, math.MaxInt / 2, math.MaxInt/3 + 1, 1 << 61, 3 << 61, 1<<63 - 1<<32, 1<<32 + 1, 1<<32 - 1, 1 << 32,
+}
+
+// pickSentinel: a sentinel weight; sometimes relative to the limit (MaxInt-W, MaxInt-W+1: `W + w`
+// is exactly MaxInt / wraps by one) or to the number of items.
+func pickSentinel(r *core.Rand, W, n int) int {
+	switch r.Pick(70, 15, 8, 7) {
+	case 1:
+		w := math.MaxInt - W // W + w is exactly MaxInt …
+		if d := r.Range(-1, 1); d > 0 && W >= 1 {
+			w++ // … or wraps by one
+		} else if d < 0 {
+			w--
+		}
+		return w
+	case 2:
+		return math.MaxInt - n
+	case 3:
+		return math.MaxInt - r.Intn(4)
+	}
+	return sentinelWeights[r.Intn(len(sentinelWeights))]
+}
+
+// genSentinelKnap: 2..8 ordinary items (some heavier than the limit, zero weights, ties) with
+// 1..6 sentinel-weight items inserted at random positions (front, middle, back; often the same
+// sentinel several times, so that partial sums wrap and un-wrap while the items are processed);
+// limits as in the ordinary stream.  Values are small, sometimes one value near the guard.
+func genSentinelKnap(r *core.Rand, large bool) core.Case {
+	nOrd := r.Range(2, 8)
+	if large {
+		nOrd = r.Range(17, 40)
+	}
+	nSen := r.Range(2, 5)
+	switch r.Pick(15, 70, 15) {
+	case 0:
+		nSen = 1
+	case 2:
+		nSen = r.Range(4, 8) // four 1<<62 sum to 0, eight to 0 again
+	}
+	W := r.Range(0, 14)
+	if large {
+		W = nOrd + r.Range(-3, 6)
+	}
+	type wv struct{ w, v int }
+	var its []wv
+	wHi := []int{3, 5, 9, 16}[r.Intn(4)]
+	unit := large && r.Chance(50)
+	for i := 0; i < nOrd; i++ {
+		w, v := r.Range(0, wHi), r.Range(1, 6)
+		if unit {
+			w, v = 1, r.Range(1, 2)
+		}
+		its = append(its, wv{w, v})
+	}
+	same := r.Chance(50)
+	first := pickSentinel(r, W, nOrd+nSen)
+	bigV := r.Chance(8)
+	for k := 0; k < nSen; k++ {
+		w := first
+		if !same && k > 0 {
+			w = pickSentinel(r, W, nOrd+nSen)
+		}
+		v := r.Range(1, 9) // a tempting value on an item that can never be packed
+		if bigV && k == 0 {
+			v = math.MaxInt - 6*(nOrd+8) - 9*nSen // the sum of all values stays < 2^63
+		}
+		pos := r.Intn(len(its) + 1)
+		switch r.Pick(60, 20, 20) {
+		case 1:
+			pos = 0
+		case 2:
+			pos = len(its)
+		}
+		its = append(its[:pos], append([]wv{{w, v}}, its[pos:]...)...)
+	}
+	var sb strings.Builder
+	sb.WriteString("@ C18 dp")
+	for _, x := range its {
+		fmt.Fprintf(&sb, " %d %d", x.w, x.v)
+	}
+	lines := []string{sb.String()}
+	for i, ops := 0, r.Range(1, 3); i < ops; i++ {
+		switch {
+		case i > 0 && r.Chance(15) && !bigV:
+			lines = append(lines, fmt.Sprintf("solv %d %d %s %d", r.Range(0, 20), r.Intn(2), genBrk(r), r.Intn(100000)))
+		case !large && r.Chance(15):
+			lines = append(lines, fmt.Sprintf("knapv %d %s", W, genBrk(r)))
+		default:
+			lines = append(lines, fmt.Sprintf("knap %d %s", W, genBrk(r)))
+		}
+		if r.Chance(50) {
+			W = r.Range(0, 14)
+			if large {
+				W = nOrd + r.Range(-3, 6)
+			}
+		}
+	}
+	tag := "sentinel"
+	if large {
+		tag = "large"
+	}
+	return core.Case{Lines: lines, Tag: tag}
+}
+
+// genSentinelSolv: subset-sum solvers with values at the edge of int, under the guard "sum of all
+// values ≤ MaxInt": one or two huge values (1<<62, MaxInt - rest, MaxInt/2 …) among small ones,
+// and limits around every huge value, around the total, at MaxInt-1 and MaxInt.
+func genSentinelSolv(r *core.Rand) core.Case {
+	n := r.Range(1, 7)
+	vs := make([]int, n)
+	small := 0
+	for i := range vs {
+		vs[i] = r.Range(1, 6)
+		small += vs[i]
+	}
+	var hugeVals []int
+	switch r.Pick(30, 20, 20, 15, 15) {
+	case 0: // one value so that the total is exactly MaxInt, or just below
+		hugeVals = []int{math.MaxInt - small - r.Intn(3)}
+	case 1: // 2^62 and 2^62 - small - 1: total 2^63 - 1
+		hugeVals = []int{1 << 62, 1<<62 - small - 1 - r.Intn(2)}
+	case 2: // two equal halves
+		h := (math.MaxInt - small) / 2
+		hugeVals = []int{h, h - r.Intn(2)}
+	case 3: // three thirds
+		h := (math.MaxInt - small) / 3
+		hugeVals = []int{h, h, h - r.Intn(3)}
+	default: // one moderate sentinel
+		hugeVals = []int{[]int{1 << 62, 1<<62 + 1, 1 << 61, 1<<32 + 1, math.MaxInt / 2}[r.Intn(5)]}
+	}
+	for _, h := range hugeVals {
+		pos := r.Intn(len(vs) + 1)
+		vs = append(vs[:pos], append([]int{h}, vs[pos:]...)...)
+	}
+	total := small
+	for _, h := range hugeVals {
+		total += h // ≤ MaxInt by construction
+	}
+	var sb strings.Builder
+	sb.WriteString("@ C18 dp")
+	for _, v := range vs {
+		w := r.Range(0, 5)
+		if r.Chance(20) {
+			w = sentinelWeights[r.Intn(len(sentinelWeights))]
+		}
+		fmt.Fprintf(&sb, " %d %d", w, v)
+	}
+	lines := []string{sb.String()}
+	clampAdd := func(a, d int) int { // a + d without leaving [0, MaxInt]
+		if d > 0 && a > math.MaxInt-d {
+			return math.MaxInt
+		}
+		if a+d < 0 {
+			return 0
+		}
+		return a + d
+	}
+	for i, ops := 0, r.Range(1, 3); i < ops; i++ {
+		var max int
+		switch r.Pick(30, 25, 15, 10, 20) {
+		case 0:
+			max = clampAdd(hugeVals[r.Intn(len(hugeVals))], r.Range(-2, small+1))
+		case 1:
+			max = clampAdd(total, r.Range(-3, 2))
+		case 2:
+			max = math.MaxInt - r.Intn(3)
+		case 3:
+			max = r.Range(0, small+1)
+		default: // the total of a random sub-selection, ± 1
+			t := 0
+			for _, v := range vs {
+				if r.Bool() {
+					t += v
+				}
+			}
+			max = clampAdd(t, r.Range(-1, 1))
+		}
+		if r.Chance(25) {
+			lines = append(lines, fmt.Sprintf("knap %d %s", r.Range(0, 12), genBrk(r)))
+		}
+		lines = append(lines, fmt.Sprintf("solv %d %d %s %d", max, r.Intn(2), genBrk(r), r.Intn(100000)))
+	}
+	return core.Case{Lines: lines, Tag: "sentinel"}
+}
+
+// genSentinelMap: Best / BestAllowMinOverflow on keys and queries at the edge of int (keys ≥ 0 as
+// in every map FindDpSolvers returns for the property's positive values; `maxValue - key` then fits).
+func genSentinelMap(r *core.Rand) core.Case {
+	pool := []int{0, 1, 2, 1 << 62, 1<<62 + 1, 1<<62 - 1, math.MaxInt, math.MaxInt - 1, math.MaxInt - 2, math.MaxInt / 2, 1<<32 + 1, 7}
+	used := map[int]bool{}
+	var sb strings.Builder
+	sb.WriteString("@ C18 map")
+	for i, n := 0, r.Range(1, 6); i < n; i++ {
+		k := pool[r.Intn(len(pool))]
+		if used[k] {
+			continue
+		}
+		used[k] = true
+		fmt.Fprintf(&sb, " %d", k)
+	}
+	lines := []string{sb.String()}
+	for i, ops := 0, r.Range(1, 5); i < ops; i++ {
+		q := pool[r.Intn(len(pool))]
+		if q < math.MaxInt && r.Chance(30) {
+			q++
+		}
+		if q == math.MaxInt && used[0] {
+			q-- // Best(MaxInt) never selects key 0 (diff == initial minDiff): see c18_best_spec's guard
+		}
+		op := "best"
+		if r.Bool() {
+			op = "besto"
+		}
+		lines = append(lines, fmt.Sprintf("%s %d %d", op, q, r.Intn(100000)))
+	}
+	return core.Case{Lines: lines, Tag: "sentinel"}
+}
+
+func genSentinel(r *core.Rand) core.Case {
+	switch r.Pick(60, 6, 26, 8) {
+	case 1:
+		return genSentinelKnap(r, true)
+	case 2:
+		return genSentinelSolv(r)
+	case 3:
+		return genSentinelMap(r)
+	}
+	return genSentinelKnap(r, false)
+}
+
 /* ---------- history: ONE Graph value through build / query / Init / rebuild rounds ---------- */
 
 func genGraphHistory(r *core.Rand) core.Case {
@@ -635,6 +880,9 @@ func genGraphHistory(r *core.Rand) core.Case {
 func gen(r *core.Rand, tier string) core.Case {
 	if r.Chance(4) {
 		return genGraphHistory(r)
+	}
+	if r.Chance(5) {
+		return genSentinel(r)
 	}
 	if (tier == "thorough" && r.Chance(10) && r.Chance(2)) || (tier != "thorough" && r.Chance(10) && r.Chance(1)) {
 		return genHugeLimit(r)
@@ -744,6 +992,21 @@ func corpus() []core.Case {
 		// magnitude: limits just above 2^20 hit exactly by a subset (value-only lines)
 		{Tag: "magnitude", Lines: []string{"@ C18 dp 1048576 7 524288 6 1 5 524288 4", "knapv 1048577 nil", "knapv 1048576 nil", "knapv 1572864 t", "knapv 1572865 gt", "knapv 1048575 nil", "knapv 2097153 nil"}},
 		{Tag: "magnitude", Lines: []string{"@ C18 dp 1048577 3 1048576 2 1 2", "knapv 1048577 nil", "knapv 1048578 lex", "knapv 2097154 nil", "knapv 2097153 f"}},
+		// sentinel weights (items that can never be packed: MaxInt, 1<<62 …) among ordinary items, in
+		// front / in the middle / at the end: any SUM of weights wraps (MaxInt+MaxInt = -2, 4·2^62 = 0),
+		// the code under test only compares and subtracts
+		{Tag: "sentinel", Lines: []string{"@ C18 dp 4 5 9223372036854775807 1 9223372036854775807 1 6 6", "knap 10 nil", "knap 10 t", "knap 9 nil", "knap 0 nil", "knapv 10 nil"}},
+		{Tag: "sentinel", Lines: []string{"@ C18 dp 4611686018427387904 3 4 5 4611686018427387904 3 3 4 4611686018427387904 3 3 4 4611686018427387904 3", "knap 10 nil", "knap 7 ge", "knap 6 lex", "knapv 9 nil"}},
+		{Tag: "sentinel", Lines: []string{"@ C18 dp 9223372036854775806 9 1 1 4611686018427387905 2 2 2 9223372036854775797 7 0 1 2 3", "knap 10 nil", "knap 3 h5", "knap 5 gt", "solv 6 1 nil 3"}},
+		{Tag: "sentinel", Lines: []string{"@ C18 dp 2 2 3 3 4611686018427387904 1 4611686018427387904 1", "knap 5 nil", "knap 4 nil"}},
+		{Tag: "sentinel", Lines: []string{"@ C18 dp 4611686018427387904 1 4611686018427387904 1 2 2 3 3", "knap 5 nil", "knap 5 le"}},
+		// subset sums at the guard: the total of all values is exactly MaxInt; limits at MaxInt, MaxInt-1,
+		// around the huge value
+		{Tag: "sentinel", Lines: []string{"@ C18 dp 0 9223372036854775800 1 3 2 4", "solv 9223372036854775807 0 nil 1", "solv 9223372036854775807 1 t 2", "solv 9223372036854775806 1 nil 3",
+			"solv 9223372036854775800 1 nil 4", "solv 9223372036854775799 1 nil 5", "solv 9223372036854775803 0 h3 6", "solv 5 1 nil 7", "knap 3 nil"}},
+		{Tag: "sentinel", Lines: []string{"@ C18 dp", "solv 9223372036854775807 0 nil 1", "solv 9223372036854775807 1 nil 2", "solv 9223372036854775806 1 nil 3"}},
+		{Tag: "sentinel", Lines: []string{"@ C18 map 0 4611686018427387904 9223372036854775807", "best 9223372036854775806 1", "besto 9223372036854775806 2", "best 4611686018427387903 3",
+			"besto 4611686018427387905 4", "best 9223372036854775807 5", "besto 1 6"}},
 		// history on one Graph value: query, Init, rebuild with the same number of nodes and other labels
 		{Tag: "history", Lines: []string{"@ C18 graphh", "und 1 2", "und 2 3", "cliques", "paths", "init 4", "len", "cliques", "und 101 102", "node 103", "cliques", "len", "init 0", "node 7", "node 8", "node 9", "cliques", "und 7 9", "cliques"}},
 		{Tag: "history", Lines: []string{"@ C18 graphh", "node 1", "node 2", "paths", "init 2", "node 11", "node 12", "und 11 12", "cliques", "paths", "init 2", "arc 21 22", "und 21 22", "cliques"}},
@@ -876,6 +1139,57 @@ func exhaustiveItems(ctx *core.Ctx) (int, string, []core.ExtraFailure) {
 	}
 	wg.Wait()
 	return evals, fmt.Sprintf("every item list of length ≤ %d over %d (weight,value) pairs, limits 0..8, 5 tie-breakers: Knapsack and FindDpSolvers/Best/BestAllowMinOverflow = brute force over all subsets", maxN, len(alpha)), fails
+}
+
+// exhaustiveSentinel: every item list of length ≤ 5 (quick) / ≤ 6 (thorough) over three ordinary
+// (weight,value) pairs and three unpackable ones (weight MaxInt, 1<<62, MaxInt/2+1) — every
+// interleaving of ordinary and sentinel items — with the limits 0..5: Knapsack (no breaker /
+// accepting breaker) against brute force that never adds weights.
+func exhaustiveSentinel(ctx *core.Ctx) (int, string, []core.ExtraFailure) {
+	maxN := 5
+	if ctx.Tier == "thorough" {
+		maxN = 6
+	}
+	alpha := [][2]int{{1, 1}, {2, 3}, {3, 2}, {math.MaxInt, 1}, {1 << 62, 2}, {math.MaxInt/2 + 1, 3}}
+	evals := 0
+	var fails []core.ExtraFailure
+	var walk func(cur []int)
+	walk = func(cur []int) {
+		if len(fails) > 0 {
+			return
+		}
+		nSen := 0
+		for _, a := range cur {
+			if a >= 3 {
+				nSen++
+			}
+		}
+		if nSen > 0 && nSen < len(cur) { // at least one sentinel and one ordinary item
+			var sb strings.Builder
+			sb.WriteString("@ C18 dp")
+			for _, a := range cur {
+				fmt.Fprintf(&sb, " %d %d", alpha[a][0], alpha[a][1])
+			}
+			lines := []string{sb.String()}
+			for W := len(cur) % 2; W <= 5; W += 2 {
+				lines = append(lines, fmt.Sprintf("knap %d nil", W), fmt.Sprintf("knap %d t", W+1))
+			}
+			c := core.Case{Lines: lines, Tag: "sentinel"}
+			out := impl(c)
+			evals += len(lines) - 1
+			if f := check(c, out); f != nil {
+				fails = append(fails, core.ExtraFailure{Failure: *f, Payload: c})
+				return
+			}
+		}
+		if len(cur) < maxN {
+			for a := range alpha {
+				walk(append(append([]int{}, cur...), a))
+			}
+		}
+	}
+	walk(nil)
+	return evals, fmt.Sprintf("every item list of length ≤ %d over 3 ordinary and 3 unpackable (weight MaxInt, 1<<62, MaxInt/2+1) items with ≥ 1 of each kind, limits 0..6: Knapsack = brute force over all subsets (weights never added)", maxN), fails
 }
 
 var _ = algz.DpSolvers[int]{}
